@@ -31,7 +31,8 @@ ASSUMPTIONS = [
 
 @st.composite
 def case_strategy(draw, tier):
-    pair = draw(ac.molecule_pair(max_atoms=40 if draw(st.integers(0, 3)) == 0 else 14))
+    pair = draw(ac.molecule_pair(max_atoms=40 if draw(st.integers(0, 3)) == 0 else 14,
+                                 multi_residue=draw(st.integers(0, 3)) == 0, similar_names=True))
     ns, ne = gen.spec_n(pair["start"]), gen.spec_n(pair["end"])
     mobile = min(ns, ne)
     pair.update({"restr": draw(ac.restraint_list(ns, ne)),
@@ -150,8 +151,11 @@ def check(case):
     given_s = build_molecule(sspec)
     given_e = build_molecule(espec)
     s0, e0 = positions(given_s), positions(given_e)
-    names_s = [a.name for a in given_s]
-    names_e = [a.name for a in given_e]
+    def _labels(mol):
+        # atom by atom: name, residue name as the topology has it and as the coordinates have it
+        return [(a.name, a.resname, g.resname) for a, g in zip(mol, [x for r in mol.residues for x in r])]
+    names_s = _labels(given_s)
+    names_e = _labels(given_e)
     label = "start %d atoms, end %d atoms, deform %r, ignore_h %r, %d restraints" % (
         len(s0), len(e0), case["deform"], case["ignore_h"], len(case["restr"]))
     if case.get("repair"):
@@ -161,8 +165,11 @@ def check(case):
         ali = lib("align", run_alignment, case, given_s, given_e)
     if not (np.array_equal(positions(given_s), s0) and np.array_equal(positions(given_e), e0)):
         raise PropertyViolation("caller-objects", "%s: the Molecule objects supplied by the caller were modified" % label)
-    if [a.name for a in ali.start] != names_s or [a.name for a in ali.end] != names_e:
-        raise PropertyViolation("names-order", "%s: atom names/order changed" % label)
+    if lib("names", _labels, ali.start) != names_s or lib("names", _labels, ali.end) != names_e:
+        raise PropertyViolation("names-order", "%s: atom names, residue names or order changed" % label)
+    if not case.get("repair") and (lib("caller-names", _labels, given_s) != names_s or
+                                   lib("caller-names", _labels, given_e) != names_e):
+        raise PropertyViolation("caller-objects", "%s: names of the Molecule objects supplied by the caller changed" % label)
     deformed, start_mobile = judge(case, s0, e0, ali, label)
     # deterministic: fresh objects, same seed -> bit-identical
     ali2 = ali if case.get("repair") else lib("align-again", run_alignment, case, build_molecule(sspec), build_molecule(espec))
